@@ -38,7 +38,7 @@ type Domain struct {
 	NoNegTimes     bool // times from 1970 on
 	NoFloats       bool
 	NoDollar       bool // no string starting with '$' (it would be read as a field reference)
-	JSONSafe       bool // valid UTF-8 strings only
+	JSONSafe       bool // valid UTF-8 strings and finite floats only
 }
 
 func (dm Domain) okAtom(v interface{}) bool {
@@ -54,6 +54,9 @@ func (dm Domain) okAtom(v interface{}) bool {
 	case float64:
 		if dm.NoFloats {
 			return false
+		}
+		if dm.JSONSafe && (math.IsInf(x, 0) || math.IsNaN(x)) {
+			return false // encoding/json refuses them: the whole export fails (outside C19's "finite numbers")
 		}
 	case time.Time:
 		if dm.NoNegTimes && x.UnixNano() < 0 {
